@@ -181,8 +181,13 @@ fn addr(p: (u64, u32)) -> VsockAddr {
 fn check_tx(m: &mut Model, site: &str, want: &[ExpPkt]) {
     let all: Vec<Pkt> = with(|w| w.personality::<VsockDev>().tx.drain(..).collect());
     let as_exp = |g: &Pkt| ExpPkt { op: g.op, local: g.src_port, peer: (g.dst_cid, g.dst_port), payload_len: g.len, flags: g.flags, buf_alloc: g.buf_alloc, fwd_cnt: g.fwd_cnt };
-    let mut got: Vec<Pkt> = Vec::new();
+    // (transmitted packet, what the protocol prescribes for it)
+    let mut pairs: Vec<(Pkt, ExpPkt)> = Vec::new();
+    let mut unexpected: Vec<u16> = Vec::new();
     let mut j = 0;
+    // payload bytes of want[j] (a data packet) that earlier packets have already carried: one send
+    // may go out as several data packets ("for any packetisation")
+    let mut carried: u32 = 0;
     let mut rest: Vec<Pkt> = Vec::new();
     for g in all {
         if m.partial && j == want.len() {
@@ -190,10 +195,19 @@ fn check_tx(m: &mut Model, site: &str, want: &[ExpPkt]) {
             continue;
         }
         let gg = as_exp(&g);
-        if j < want.len() && (gg == want[j] || gg.op == want[j].op) {
-            // the prescribed packet (field differences are reported below)
+        if j < want.len() && gg.op == want[j].op {
+            let w = &want[j];
+            if w.op == OP_RW && gg.local == w.local && gg.peer == w.peer && g.len > 0 && carried + g.len < w.payload_len {
+                // a part of the prescribed data packet; more follows
+                carried += g.len;
+                pairs.push((g, ExpPkt { payload_len: gg.payload_len, ..w.clone() }));
+                probe("send_split_into_several_packets");
+                continue;
+            }
+            let e = if w.op == OP_RW && carried > 0 { ExpPkt { payload_len: w.payload_len - carried, ..w.clone() } } else { w.clone() };
+            carried = 0;
             j += 1;
-            got.push(g);
+            pairs.push((g, e));
             continue;
         }
         let extra_ok = match g.op {
@@ -214,7 +228,8 @@ fn check_tx(m: &mut Model, site: &str, want: &[ExpPkt]) {
             }
             continue;
         }
-        got.push(g);
+        unexpected.push(g.op);
+        pairs.push((g, ExpPkt { op: 0xffff, local: 0, peer: (0, 0), payload_len: 0, flags: 0, buf_alloc: 0, fwd_cnt: 0 }));
     }
     if !rest.is_empty() {
         with(|w| {
@@ -224,15 +239,15 @@ fn check_tx(m: &mut Model, site: &str, want: &[ExpPkt]) {
             }
         });
     }
-    if got.len() != want.len() {
+    if j != want.len() || carried != 0 || !unexpected.is_empty() {
         violation(
             "vsock-packets",
             site,
-            format!("{site}: driver transmitted ops {:?}, protocol prescribes {:?}", got.iter().map(|p| p.op).collect::<Vec<_>>(), want.iter().map(|p| p.op).collect::<Vec<_>>()),
+            format!("{site}: driver transmitted ops {:?}, protocol prescribes {:?}", pairs.iter().map(|p| p.0.op).collect::<Vec<_>>(), want.iter().map(|p| p.op).collect::<Vec<_>>()),
         );
         return;
     }
-    for (g, e) in got.iter().zip(want.iter()) {
+    for (g, e) in pairs.iter().map(|p| (&p.0, &p.1)) {
         let gg = ExpPkt { op: g.op, local: g.src_port, peer: (g.dst_cid, g.dst_port), payload_len: g.len, flags: g.flags, buf_alloc: g.buf_alloc, fwd_cnt: g.fwd_cnt };
         if gg != *e {
             violation("vsock-packet-fields", site, format!("{site}: driver transmitted {gg:?}, expected {e:?} (buf_alloc = configured capacity, fwd_cnt = bytes the application has read)"));
@@ -992,13 +1007,12 @@ impl TransportFn<()> for WrapTx {
                 violation("vsock-result", "send", format!("send of {n} bytes with {free} bytes of credit after {sent} bytes in total (tx counter {tx_cnt:#x}): {r:?}"));
                 break;
             }
-            let pk = with(|w| w.personality::<VsockDev>().tx.pop_front());
-            match pk {
-                Some(p) if p.op == OP_RW && p.payload_len == n && p.len as usize == n => {}
-                other => {
-                    violation("vsock-packets", "send", format!("expected one data packet of {n} bytes, device saw {:?}", other.map(|p| (p.op, p.len, p.payload_len))));
-                    break;
-                }
+            // the n bytes reach the device as one data packet or as several, in order
+            let pks: Vec<Pkt> = with(|w| w.personality::<VsockDev>().tx.drain(..).collect());
+            let total: usize = pks.iter().map(|p| p.payload_len).sum();
+            if pks.is_empty() || total != n || pks.iter().any(|p| p.op != OP_RW || p.len as usize != p.payload_len) {
+                violation("vsock-packets", "send", format!("expected data packets carrying {n} bytes, device saw {:?}", pks.iter().map(|p| (p.op, p.len, p.payload_len)).collect::<Vec<_>>()));
+                break;
             }
             sent += n as u64;
             refused_in_a_row = 0;
